@@ -16,7 +16,7 @@ RULE = ("IOR: the real minicbor_io::Reader over a scripted io::Read (per read ca
         "buffer <= max_len; writer: one write call of be32(len)+payload per accepted value, returned length == payload length, refused "
         "values put nothing into the sink. Non-trivial = the schedule has >= 2 tokens, or the stream is cut, or (IOW) any case.")
 ASSUMPTIONS = ["the inner reader honours io::Read (returns n <= buf.len(); Ok(0) only at end of stream) and uses std's default read_exact",
-               "payload length + 4 < 2^32 on the writing side (the debug-mode `len as u32 - 4`); not probed on the real code (needs a 4 GiB value)",
+               "max_len < 2^32 (set_max_len takes a u32), hence accepted payloads < 2^32 bytes; payloads near 2^32 bytes are not run on the real code",
                "the value codec is abstract in the theorems (dec : bytes -> option V); the correspondence runs it with ByteVec / a byte-string value",
                "64-bit usize"]
 
